@@ -477,10 +477,18 @@ func (s glueSuite) Run(raw json.RawMessage) []Step {
 	}
 	var steps []Step
 	for k := range c.Archs {
-		out := answers[0][k]
-		for rep := 1; rep < len(answers); rep++ {
-			if answers[rep][k] != out {
-				out = fmt.Sprintf("nondeterministic: invocation 0 answered %s, invocation %d answered %s", answers[0][k], rep, answers[rep][k])
+		// whether the lock can be unified depends on the map order of the architectures (C09's finding F09g): an
+		// invocation that failed there says nothing about the resolution and is left out of the comparison
+		out, first := "unify-error", -1
+		for rep := 0; rep < len(answers); rep++ {
+			switch {
+			case answers[rep][k] == "unify-error":
+			case first < 0:
+				out, first = answers[rep][k], rep
+			case answers[rep][k] != out:
+				out = fmt.Sprintf("nondeterministic: invocation %d answered %s, invocation %d answered %s", first, answers[first][k], rep, answers[rep][k])
+			}
+			if strings.HasPrefix(out, "nondeterministic") {
 				break
 			}
 		}
